@@ -2,7 +2,7 @@
    Statements about the reader model (Model/Json.v from_json / from_frag), for EVERY document and
    every arithmetic instance.  "Err" = an exception. *)
 From Coq Require Import List String Bool.
-From Hgm Require Import NumOps Agg Ops Build Json JsonFacts.
+From Hgm Require Import NumOps Xq Agg Ops Build Json JsonFacts JsonNeg JsonRT.
 Import ListNotations.
 Local Open Scope string_scope.
 
@@ -40,7 +40,43 @@ Theorem C15_versions :
   version_ok "abc" = None /\ version_ok "1" = None.
 Proof. exact version_examples. Qed.
 
+(* a negative "entries" in the fragment of any primitive, at any depth *)
+Theorem C15_negative_entries : forall (N : num_ops) fuel ty (o : list (string * json N)) p je e,
+  String.eqb ty "Count" = false ->
+  jget "entries" o = Some je -> jnum je = Some e -> entries_ok e = false ->
+  from_frag fuel ty (JObj o) p = Err.
+Proof. intros N. apply rejects_negative_entries. Qed.
+
+Theorem C15_negative_count : forall (N : num_ops) fuel (j : json N) p e,
+  jnum j = Some e -> entries_ok e = false -> from_frag fuel "Count" j p = Err.
+Proof. intros N. apply rejects_negative_count. Qed.
+
+(* "entries" of the wrong JSON type (a string other than nan/inf/-inf, null, a list, an object) *)
+Theorem C15_entries_not_a_number : forall (N : num_ops) fuel ty (o : list (string * json N)) p je,
+  String.eqb ty "Count" = false ->
+  jget "entries" o = Some je -> jnum je = None -> from_frag fuel ty (JObj o) p = Err.
+Proof. intros N. apply rejects_bad_entries_type. Qed.
+
+(* nothing silently dropped or duplicated: a container that loads has exactly one child per element
+   of its values / bins / data field (Bin, CentrallyBin, IrregularlyBin, Stack, SparselyBin, Label,
+   UntypedLabel, Index, Branch); so a malformed element cannot be skipped, and two SparselyBin keys
+   denoting the same index cannot be merged *)
+Theorem C15_no_element_dropped : forall (N : num_ops) fuel ty (o : list (string * json N)) p a xs,
+  from_frag fuel ty (JObj o) p = Ok a -> elements ty o = Some xs -> n_children a = List.length xs.
+Proof. intros N. apply keeps_every_element. Qed.
+
+(* every document produced by toJson is accepted (exact instance, every tree satisfying jwf, see
+   C04_round_trip) *)
+Theorem C15_accepts_own_documents : forall (a : agg Xq) fuel, jwf a -> (height a <= fuel)%nat ->
+  exists b, from_json fuel (to_json a) = Ok b.
+Proof. intros a fuel W H. eexists. apply (json_round_trip a fuel W H). Qed.
+
 Print Assumptions C15_header.
+Print Assumptions C15_negative_entries.
+Print Assumptions C15_negative_count.
+Print Assumptions C15_entries_not_a_number.
+Print Assumptions C15_no_element_dropped.
+Print Assumptions C15_accepts_own_documents.
 Print Assumptions C15_not_an_object.
 Print Assumptions C15_unknown_type.
 Print Assumptions C15_wrong_keys.
